@@ -239,7 +239,40 @@ def lib_islice(ip, st, pos, kws):
     return [(st, ip.new_cell(st, nc))]
 
 
-LIB = {("itertools", "islice"): lib_islice, ("copy", "deepcopy"): lib_deepcopy, "deepcopy": lib_deepcopy,
+def lib_path_exists(ip, st, pos, kws):
+    return lib_os_access(ip, st, pos, kws)
+
+
+def lib_noop_none(ip, st, pos, kws):
+    return [(st, NONE)]
+
+
+def lib_dirname(ip, st, pos, kws):
+    f = ip.reg.ufun("path_dirname", ["Key"], "Key")
+    return [(st, Opaque(T("(%s %s)" % (f, ip.key_term(pos[0]).s), "Key")))]
+
+
+def file_method(ip, st, f, name, pos):
+    """methods of a ghost file object: a text file is a one-element content list holding its text"""
+    lv = need_fs(ip.reg)
+    fc = _file(ip, st, f)
+    path = fc.fields["path"]
+    if name == "write":
+        from .builtins_ import elem_term
+        v = elem_term(ip, st, ip.to_yield_value(st, pos[0]), "V")
+        one = ip.reg.new("text", lv)
+        st.assume(EQ(ip.reg.l_len(one), I(1)))
+        st.assume(EQ(ip.reg.l_get(one, I(0)), v))
+        fs_store(ip, st, path, "(fsome %s)" % one.s)
+        return [(st, NONE)]
+    if name == "read":
+        cur = T("(fcontent %s)" % fs_entry_term(ip, st, path).s, lv)
+        return [(st, Opaque(ip.reg.l_get(cur, I(0))))]
+    raise U("file method " + name)
+
+
+LIB = {("os.path", "exists"): lib_path_exists, ("os.path", "dirname"): lib_dirname, ("os", "makedirs"): lib_noop_none,
+       ("itertools", "islice"): lib_islice, ("copy", "deepcopy"): lib_deepcopy, "deepcopy": lib_deepcopy,
        ("copy", "copy"): lambda ip, st, pos, kws: [(st, _deep(ip, st, pos[0]))],        # a new top-level object, NOT a deep copy
        ("pickle", "dump"): lib_pickle_dump, "pickle.dump": lib_pickle_dump,
        ("pickle", "load"): lib_pickle_load, "pickle.load": lib_pickle_load,
@@ -266,7 +299,98 @@ def _sf_fs_all(ip, e, st):
     return Opaque(fs_get(ip, st))
 
 
-FS_FORMS = {"fs_exists": _sf_fs_exists, "fs_content": _sf_fs_content, "fs_entry": _sf_fs_entry, "fs": _sf_fs_all}
+def _fs_arg(ip, st, v):
+    if isinstance(v, Opaque) and v.t.sort == FS_SORT:
+        return v.t
+    raise U("file-system snapshot expected")
+
+
+def _sf_fs_exists_in(ip, e, st):
+    fs = _fs_arg(ip, st, ip.ev1(e.args[0], st))
+    return Bool(NOT(EQ(T("(select %s %s)" % (fs.s, ip.key_term(ip.ev1(e.args[1], st)).s), "FOpt"), T("fnone", "FOpt"))))
+
+
+def _sf_fs_content_in(ip, e, st):
+    lv = need_fs(ip.reg)
+    fs = _fs_arg(ip, st, ip.ev1(e.args[0], st))
+    return ip.lst_view(T("(fcontent (select %s %s))" % (fs.s, ip.key_term(ip.ev1(e.args[1], st)).s), lv))
+
+
+def _sf_fs_entry_in(ip, e, st):
+    fs = _fs_arg(ip, st, ip.ev1(e.args[0], st))
+    return Opaque(T("(select %s %s)" % (fs.s, ip.key_term(ip.ev1(e.args[1], st)).s), "FOpt"))
+
+
+# ---- abstract flow values (sort V) as (data, context) pairs
+def value_context(ip, st, v):
+    """the context OBJECT of an abstract flow value: one dictionary cell per value (kept in the state), so that in-place
+    updates of a value's context are seen by everything that holds the value"""
+    from .sym import ValCell
+    tab = dict(st.notes.get("vctx", {}))
+    key = v.t.s
+    if key not in tab:
+        ip.reg.need_val()
+        f = ip.reg.ufun("vctx", ["V"], "Val")
+        t = T("(%s %s)" % (f, v.t.s), "Val")
+        st.assume(T("(isD %s)" % t.s, "Bool"))
+        tab[key] = ip.new_cell(st, ValCell(t))
+        st.notes["vctx"] = tab
+        # well-formedness of contexts the contract relies on (stated in the contract, listed as an assumption)
+        wf = (ip.c.ghost.get("ctx_wf") if ip.c is not None else None) or []
+        for cl in wf:
+            from .calls import eval_spec
+            st.assume(eval_spec(ip, st, {"c": tab[key]}, cl))
+            ip.assumptions.add("well-formed contexts: " + cl)
+    return tab[key]
+
+
+def lib_get_data_context_v(ip, st, pos, kws):
+    """lena.flow.get_data_context on an abstract flow value: (data, context) with the value's own context object, or
+    (value, {}) for bare data"""
+    from .sym import ValCell, Tup
+    v = pos[0]
+    ip.reg.need_val()
+    hc = ip.reg.ufun("v_has_context", ["V"], "Bool")
+    cond = T("(%s %s)" % (hc, v.t.s), "Bool")
+    ip.assumptions.add("flow values of the abstract sort V: v_has_context(v) tells a (data, context) pair from bare data; "
+                       "get_data_context / get_data / get_context of lena.flow.functions on V follow their docstrings")
+    a = st.fork(cond, "dc.")
+    fd = ip.reg.ufun("vdata", ["V"], "V")
+    pair = Tup([Opaque(T("(%s %s)" % (fd, v.t.s), "V")), value_context(ip, a, v)])
+    b = st.fork(NOT(cond), "bare.")
+    bare = Tup([v, ip.new_cell(b, ValCell(T("(D emptymap)", "Val")))])
+    return [(a, pair), (b, bare)]
+
+
+def _sf_vdata(ip, e, st):
+    v = ip.ev1(e.args[0], st)
+    fd = ip.reg.ufun("vdata", ["V"], "V")
+    return Opaque(T("(%s %s)" % (fd, v.t.s), "V"))
+
+
+def _sf_vctx(ip, e, st):
+    """vctx(v): the context the abstract flow value v arrived with (a Val term; {} for bare data)"""
+    v = ip.ev1(e.args[0], st)
+    ip.reg.need_val()
+    f = ip.reg.ufun("vctx", ["V"], "Val")
+    hc = ip.reg.ufun("v_has_context", ["V"], "Bool")
+    return Opaque(ITE(T("(%s %s)" % (hc, v.t.s), "Bool"), T("(%s %s)" % (f, v.t.s), "Val"), T("(D emptymap)", "Val")))
+
+
+def _sf_snapshot(ip, e, st):
+    """snapshot(d): the VALUE a dictionary has now (a later in-place change of the object does not affect it)"""
+    from .dicts import dterm
+    return Opaque(dterm(ip, st, ip.ev1(e.args[0], st)))
+
+
+def _sf_has_context(ip, e, st):
+    v = ip.ev1(e.args[0], st)
+    hc = ip.reg.ufun("v_has_context", ["V"], "Bool")
+    return Bool(T("(%s %s)" % (hc, v.t.s), "Bool"))
+
+
+FS_FORMS = {"fs_exists_in": _sf_fs_exists_in, "fs_content_in": _sf_fs_content_in, "fs_entry_in": _sf_fs_entry_in,
+            "vdata": _sf_vdata, "vctx": _sf_vctx, "snapshot": _sf_snapshot, "v_has_context": _sf_has_context,"fs_exists": _sf_fs_exists, "fs_content": _sf_fs_content, "fs_entry": _sf_fs_entry, "fs": _sf_fs_all}
 
 
 def register(ix):
